@@ -70,7 +70,12 @@ fn main() {
 								Some("macro") => macros.push(rec.clone()),
 								Some("de") => dev::replay_de(&mut rep, &rec),
 								Some("sj") => serdev::replay_sj(&mut rep, &rec),
-								Some("ser") => serdev::replay_ser(&mut rep, &rec),
+								Some("ser") => {
+									serdev::replay_ser(&mut rep, &rec);
+									if rec.get("de").is_some() {
+										serdev::replay_visitor(&mut rep, &rec);
+									}
+								}
 								Some("uneq") => unordv::replay_uneq(&mut rep, &rec),
 								Some("kind_set") => kindv::replay_set(&mut rep, &rec),
 								Some("kind_ops") => kindv::replay_ops(&mut rep, &rec),
